@@ -16,3 +16,11 @@ import SwcVerif.Props.C06Gen
 #print axioms C06.cutShortTip_removed
 #print axioms RefineSub.toSubTopology_refines
 #print axioms C06.generated_toSubTopology_eq_model
+#print axioms RefineClosures.spec_wrap
+#print axioms RefineClosures.spec_wrap_on
+#print axioms RefineClosures.traverse_closures_on
+#print axioms RefineClosures.spec_abs
+#print axioms C06.generated_getSubtree_eq_model
+#print axioms C06.propagate_closure
+#print axioms C06.absMark_step
+#print axioms C06.generated_propagateRemoval
